@@ -529,6 +529,9 @@ impl Check for C04 {
                "stub": ["host natives (simulated host)"],
                "flavours": "strict build (debug assertions + overflow checks, the configuration the test suite runs in); thorough tier also runs half of the cases in a release-like build"})
     }
+    fn asan_flavour_share(&self) -> bool {
+        true
+    }
     fn required_probes(&self, _tier: Tier) -> Vec<String> {
         vec![
             "fault:alloc-failure_fired".into(),
